@@ -291,7 +291,27 @@ impl<'a> InputGen<'a> {
                 } else {
                     "zzz".to_string()
                 };
-                let name = near_miss(rng, &base);
+                // names that exist in the declaration but are not accepted (skipped fields / variants) are the
+                // ones a wrong suggestion would come from: near misses of them, and the names themselves
+                let skipped: Vec<String> = match &ctx {
+                    Ctx::Recv(r) => match &r.shape {
+                        Shape::Struct(fs) => fs.iter().filter(|f| f.skip).map(|f| field_name(r, f)).collect(),
+                        Shape::Enum(vs) => vs.iter().filter(|v| v.skip).map(|v| variant_name(r, v)).collect(),
+                        _ => vec![],
+                    },
+                    Ctx::Fields(r, fs) => fs.iter().filter(|f| f.skip).map(|f| field_name(r, f)).collect(),
+                    Ctx::Map => vec![],
+                };
+                let name = if !skipped.is_empty() && rng.chance(1, 3) {
+                    let b = rng.pick(&skipped).clone();
+                    if rng.chance(1, 3) {
+                        b
+                    } else {
+                        near_miss(rng, &b)
+                    }
+                } else {
+                    near_miss(rng, &base)
+                };
                 if !addressable(&name) {
                     return None;
                 }
